@@ -115,7 +115,7 @@ func callNumeric(fn string, a []uint64) outcome {
 	need := map[string]int{"MaxU64": 2, "MinU64": 2, "IntegerSquareroot": 1, "IntegerSquareRootPrysm": 1,
 		"IsPowerOfTwo": 1, "NextPowerOfTwo": 1, "TimeToSlot": 3, "TimeAtSlot": 3, "SlotToEpoch": 2,
 		"SlotPrevious": 1, "EpochPrevious": 1, "EpochStartSlot": 2, "ComputeActivationExitEpoch": 2,
-		"GetChurnLimit": 3, "ActivationChurnLimit": 2, "CommitteeCount": 4, "CheckSlotSpan": 4}
+		"GetChurnLimit": 3, "ActivationChurnLimit": 2, "ValidatorActivationChurnLimit": 4, "CommitteeCount": 4, "CheckSlotSpan": 4}
 	n, ok := need[fn]
 	if !ok || len(a) != n {
 		fmt.Fprintf(os.Stderr, "helpers: bad event fn=%s args=%d\n", fn, len(a))
@@ -170,6 +170,14 @@ func callNumeric(fn string, a []uint64) outcome {
 			sp := &common.Spec{}
 			sp.MAX_PER_EPOCH_ACTIVATION_CHURN_LIMIT = view.Uint64View(a[1])
 			return deneb.VerifValidatorActivationChurnLimit(sp, a[0]), nil
+		case "ValidatorActivationChurnLimit":
+			// the helper fed with get_validator_churn_limit, as deneb.ProcessEpochRegistryUpdates does, under a
+			// configuration that carries all three churn parameters
+			sp := &common.Spec{}
+			sp.MIN_PER_EPOCH_CHURN_LIMIT = view.Uint64View(a[1])
+			sp.CHURN_LIMIT_QUOTIENT = view.Uint64View(a[2])
+			sp.MAX_PER_EPOCH_ACTIVATION_CHURN_LIMIT = view.Uint64View(a[3])
+			return deneb.VerifValidatorActivationChurnLimit(sp, sp.GetChurnLimit(a[0])), nil
 		case "CommitteeCount":
 			sp := &common.Spec{}
 			sp.SLOTS_PER_EPOCH = common.Slot(a[1])
@@ -677,6 +685,71 @@ func (rc *recorder) oneRound() {
 			act, _ = rc.u64()
 		}
 		rc.numeric("GetChurnLimit", cls, act, mn, q)
+	}
+	// ValidatorActivationChurnLimit(active, MIN_PER_EPOCH_CHURN_LIMIT, CHURN_LIMIT_QUOTIENT, MAX_PER_EPOCH_ACTIVATION_CHURN_LIMIT)
+	{
+		q := rc.pick(65536, 32, 1, 2, 7, uint64(1+r.Intn(1<<17)), rc.nonzero())
+		mn := rc.pick(4, 2, 8, 1, 0, uint64(r.Intn(100)))
+		if r.Intn(10) == 0 {
+			mn, _ = rc.u64()
+		}
+		var cp uint64
+		cls := ""
+		switch r.Intn(6) {
+		case 0:
+			cp = 0
+		case 1:
+			if mn > 0 {
+				cp = uint64(r.Int63n(int64(minU(mn, 1<<62))))
+			}
+		case 2:
+			cp = mn
+		case 3:
+			if mn < maxU64 {
+				cp = mn + 1 + uint64(r.Intn(8))
+				if cp < mn {
+					cp = maxU64
+				}
+			} else {
+				cp = mn
+			}
+		case 4:
+			cp = rc.pick(8, 4, 16, maxU64)
+		default:
+			cp, _ = rc.u64()
+		}
+		switch {
+		case cp < mn && cp == 0:
+			cls = "cap-zero-below-min"
+		case cp < mn:
+			cls = "cap-below-min"
+		case cp == mn:
+			cls = "cap-equals-min"
+		default:
+			cls = "cap-above-min"
+		}
+		// active counts around every breakpoint: min*quot, cap*quot, multiples of the quotient
+		var act uint64
+		switch r.Intn(5) {
+		case 0:
+			if mn != 0 && q <= maxU64/mn {
+				act = mn*q - uint64(r.Intn(2)) + uint64(r.Intn(2))
+			}
+		case 1:
+			if cp != 0 && q <= maxU64/cp {
+				act = cp*q - uint64(r.Intn(2)) + uint64(r.Intn(2))
+			}
+		case 2:
+			k := uint64(r.Intn(64))
+			if q <= maxU64/(k+1) {
+				act = k*q + rc.pick(0, q-1)
+			}
+		case 3:
+			act = uint64(r.Intn(1 << 22))
+		default:
+			act, _ = rc.u64()
+		}
+		rc.numeric("ValidatorActivationChurnLimit", cls, act, mn, q, cp)
 	}
 	// CommitteeCount(active, SLOTS_PER_EPOCH, TARGET_COMMITTEE_SIZE, MAX_COMMITTEES_PER_SLOT)
 	{
